@@ -279,6 +279,31 @@ def object_histories(ctx):
         ctx.sample(dict(kind='object-history', start=keep[len(keep) // 3][0], history=keep[len(keep) // 3][1]))
 
 
+def validate_repo_tests(ctx):
+    """what the repository's own tests did with the Pauli routines (recorded by harness/recorder.py), validated by the same trace specs"""
+    from .. import repotrace
+    d = repotrace.record()
+    ev, ob = d['pauli'], d['pobj']
+    if not ev or not ob:
+        raise core.MachineryError('the repository tests produced no Pauli events: ' + d['pytest_tail'])
+    acc, rej, results = tlc.validate_events('pauli/Trace_Pauli.tla', 'pauli/Trace_Pauli.cfg', ev, shards=4)
+    acc2, rej2, results2 = tlc.validate_events('pauli/Trace_PauliObject.tla', 'pauli/Trace_PauliObject.cfg', ob, shards=4)
+    for r in results + results2:
+        ctx.states += r.distinct
+        ctx.transitions += r.generated
+    ctx.models.append(dict(model='Trace_Pauli[repository tests]', events=len(ev), accepted=acc, rejected=len(rej), pytest=d['pytest_tail'], exhaustive=False))
+    ctx.models.append(dict(model='Trace_PauliObject[repository tests]', traces=len(ob), accepted=acc2, rejected=len(rej2), skipped_by_recorder=d['skipped'], exhaustive=False))
+    ctx.traces += len(ev) + len(ob)
+    for e in ev:
+        ctx.case(('repo-ev', repr(sorted(e.items()))))
+    for t in ob:
+        ctx.case(('repo-obj', repr(t[0]['f2'])))
+    for gi, info in rej:
+        ctx.violation('C08:trace:%s:repository-test' % ev[gi]['op'], 'a call made by the repository tests is rejected by Trace_Pauli: %s' % ev[gi]['op'], ev[gi])
+    for gi, info in rej2:
+        ctx.violation('C08:PauliOperator:dense:repository-test', 'a PauliOperator <-> dense conversion made by the repository tests is rejected by Trace_PauliObject', dict(trace=ob[gi]))
+
+
 def run(ctx):
     quick = ctx.tier == 'quick'
     ctx.rule = ('exhaustive: every phased Pauli operator (state of MC_Pauli) and every ordered pair (row of the '
@@ -315,6 +340,7 @@ def run(ctx):
         ctx.violation('C08:trace:%s' % e['op'], 'recorded call rejected by Trace_Pauli: %s' % e['op'], e)
     ctx.sample(dict(kind='recorded-event', event=ev[0]))
     ctx.sample(dict(kind='recorded-event', event=ev[-1]))
+    validate_repo_tests(ctx)
 
 
 def replay(ctx, rec):
